@@ -15,6 +15,7 @@
 //!   r = { PROBE(SEL) }                   SEL = VAL or NUMBER(VAL, opts)
 //! into a bundle for `<locale>` (isolation off, builtins added) and prints
 //!   p=<hex text>:<#errors>;q=…|~;s=…;r=<what PROBE received: full FluentNumber + PluralOperands::from(&n)>
+//!   ;cs=same|DIFF-after-<kind>:<s on a concurrent bundle that resolved a select of that kind first>
 use fluent_bundle::types::{
     FluentNumber, FluentNumberCurrencyDisplayStyle, FluentNumberStyle, FluentNumberType,
 };
@@ -222,6 +223,8 @@ fn run(payload: &str) -> String {
     ftl.push_str(" }\n");
     ftl.push_str(&format!("r = {{ PROBE({}) }}\n", sel_expr));
 
+    let ftl_copy = ftl.clone();
+    let langid2 = langid.clone();
     let res = match FluentResource::try_new(ftl) {
         Ok(r) => r,
         Err((_, errs)) => return format!("bad-ftl {}", errs.len()),
@@ -257,10 +260,47 @@ fn run(payload: &str) -> String {
     let p = fmt("p");
     let q = fmt("q");
     let s = fmt("s");
+    // the same selection on CONCURRENT bundles whose formatter cache already holds the plural rules of one kind
+    // (cardinal resp. ordinal) from an earlier select: the category must not depend on the flavour or the history
+    let mut cs = String::from("same");
+    for warm in ["cardinal", "ordinal"] {
+        let src = format!(
+            "{}w = {{ NUMBER(2, type: \"{}\") ->\n [one] a\n [two] b\n [few] c\n *[other] d\n }}\n",
+            ftl_copy, warm
+        );
+        let Ok(res) = FluentResource::try_new(src) else {
+            cs = "bad-ftl".to_string();
+            break;
+        };
+        let mut cb: fluent_bundle::concurrent::FluentBundle<FluentResource> =
+            fluent_bundle::concurrent::FluentBundle::new_concurrent(vec![langid2.clone()]);
+        cb.set_use_isolating(false);
+        if cb.add_builtins().is_err() || cb.add_function("PROBE", probe).is_err() || cb.add_resource(res).is_err() {
+            cs = "bad-bundle".to_string();
+            break;
+        }
+        let cfmt = |id: &str| -> String {
+            let Some(msg) = cb.get_message(id) else {
+                return "~".to_string();
+            };
+            let Some(pat) = msg.value() else {
+                return "~".to_string();
+            };
+            let mut errs = vec![];
+            let out = cb.format_pattern(pat, Some(&args), &mut errs);
+            format!("{}:{}", hex_enc(out.as_bytes()), errs.len())
+        };
+        let _ = cfmt("w");
+        let s2 = cfmt("s");
+        if s2 != s {
+            cs = format!("DIFF-after-{}:{}", warm, s2);
+            break;
+        }
+    }
     PROBED.with(|p| p.borrow_mut().clear());
     let _ = fmt("r");
     let r = PROBED.with(|p| p.borrow().clone());
-    format!("p={};q={};s={};r={}", p, q, s, r)
+    format!("p={};q={};s={};r={};cs={}", p, q, s, r, cs)
 }
 
 fn main() {
